@@ -235,21 +235,44 @@ func (p *Program) localMods(u *Universe, fn *ssa.Function) *modInfo {
 
 // isFreshBase: does the pointer/slice derive from an allocation in the same function?
 func isFreshBase(v ssa.Value, depth int) bool {
+	return isFreshBaseV(v, depth, map[ssa.Value]bool{})
+}
+
+// isFreshBaseV: the storage v designates was allocated by this function. A slice that is grown
+// by append stays fresh (append writes into the same row or into a newly allocated one), and a
+// loop-carried slice (phi) is fresh if every incoming value is.
+func isFreshBaseV(v ssa.Value, depth int, seen map[ssa.Value]bool) bool {
 	if depth > 8 {
 		return false
 	}
 	switch a := v.(type) {
+	case *ssa.Phi:
+		if seen[a] {
+			return true // a cycle through the phi itself adds nothing
+		}
+		seen[a] = true
+		for _, e := range a.Edges {
+			if !isFreshBaseV(e, depth+1, seen) {
+				return false
+			}
+		}
+		return true
+	case *ssa.Call:
+		if b, ok := a.Call.Value.(*ssa.Builtin); ok && b.Name() == "append" && len(a.Call.Args) > 0 {
+			return isFreshBaseV(a.Call.Args[0], depth+1, seen)
+		}
+		return false
 	case *ssa.Alloc, *ssa.MakeSlice, *ssa.MakeMap:
 		return true
 	case *ssa.FieldAddr:
 		// only sub-objects (struct-typed fields) of a fresh object are fresh themselves
-		return isFreshBase(a.X, depth+1)
+		return isFreshBaseV(a.X, depth+1, seen)
 	case *ssa.Slice:
-		return isFreshBase(a.X, depth+1)
+		return isFreshBaseV(a.X, depth+1, seen)
 	case *ssa.IndexAddr:
-		return isFreshBase(a.X, depth+1)
+		return isFreshBaseV(a.X, depth+1, seen)
 	case *ssa.ChangeType:
-		return isFreshBase(a.X, depth+1)
+		return isFreshBaseV(a.X, depth+1, seen)
 	}
 	return false
 }
@@ -400,7 +423,12 @@ func (p *Program) instrLocal(u *Universe, ins ssa.Instruction, mi *modInfo) {
 			switch b.Name() {
 			case "append":
 				st := c.Args[0].Type().Underlying().(*types.Slice)
-				mi.ms.add(u.elemVar(u.sortOf(st.Elem())), 2)
+				lvl := int8(2)
+				if isFreshBase(c.Args[0], 0) {
+					// appending to a slice this function allocated writes only rows it allocated
+					lvl = 1
+				}
+				mi.ms.add(u.elemVar(u.sortOf(st.Elem())), lvl)
 			case "copy":
 				if st, ok := c.Args[0].Type().Underlying().(*types.Slice); ok {
 					mi.ms.add(u.elemVar(u.sortOf(st.Elem())), 2)
